@@ -31,6 +31,54 @@ def evaluate(sd, log):
     return json.loads(open(res).readline()), dt
 
 
+def wallet_dleq(d, sd):
+    """C10, wallet path: TLC-generated and directed wallet histories on real wallets and mints; the NUT-12 proof (e, s, r)
+    of every proof a wallet stores (spendable or pending, after every operation) and of every proof in a token it hands
+    out (as the recipient decodes it) is logged with the mint's published key and re-verified by TLC."""
+    import wallethist
+    num = 25 if tier() == "quick" else 600
+    histories, gen_dt, consts = wallethist.generate(sd, num, 16, ["mint", "send", "sendlocked", "receive", "melt", "checkmelt", "reclaim", "removespent", "restore"],
+                                                    (0, 100), True)
+    for h in wallethist.directed()[:2] + pending_melt_histories():
+        h = dict(h)
+        h["id"] = len(histories) + 1
+        histories.append(h)
+    log = os.path.join(d, "walletdleq.ndjson")
+    trace, nh, nev = wallethist.run_whist(d, histories, name="c10w", dleq=log)
+    lines = [json.loads(l) for l in open(log)]
+    missing = sum(1 for l in lines if l["out"] == "missing")
+    lines = [l for l in lines if l["out"] != "missing"]
+    with open(log, "w") as f:
+        for l in lines:
+            f.write(json.dumps(l) + "\n")
+    if not lines:
+        raise Infra("wallet histories produced no DLEQ facts")
+    v, dt = evaluate(sd, log)
+    if v["n"] != len(lines):
+        raise Infra("TLC evaluated %d of %d wallet DLEQ lines" % (v["n"], len(lines)))
+    return lines, v, {"wallet_histories": nh, "wallet_events": nev, "wallet_dleq_lines": len(lines), "wallet_token_lines": sum(1 for l in lines if l["class"] == "wallet-token"),
+                      "wallet_lines_without_dleq": missing, "wallet_tlc_evaluate_s": round(dt, 1)}
+
+
+def pending_melt_histories():
+    """A melt whose payment stays in flight and then fails puts the inputs back from the wallet's pending store; they are
+    then sent on unchanged (exact amounts, no swap in between), to a third party."""
+    two = [{"name": "ma", "fee": 0, "policy": "min1"}, {"name": "mb", "fee": 100, "policy": "min1"}]
+    ws = [{"name": "w1", "default": "ma"}, {"name": "w2", "default": "ma"}, {"name": "w3", "default": "mb"}]
+    hs = []
+    for m, amt, melt, sends in (("ma", 31, 20, (16, 4, 8)), ("mb", 127, 60, (64, 32, 16)), ("ma", 15, 9, (8, 1, 4, 2))):
+        ops = [{"op": "mint", "w": "w1", "m": m, "amt": amt}, {"op": "mint", "w": "w2", "m": m, "amt": 7},
+               {"op": "melt", "w": "w1", "m": m, "amt": melt, "pay": ["pending"]},
+               {"op": "melt", "w": "w2", "m": m, "amt": 3, "pay": ["pending"]},
+               {"op": "checkmelt", "w": "w1", "status": ["pending"]}, {"op": "checkmelt", "w": "w1", "status": ["failed"]},
+               {"op": "checkmelt", "w": "w2", "status": ["failed"]}]
+        for a in sends:
+            ops.append({"op": "send", "w": "w1", "m": m, "amt": a})
+        ops += [{"op": "receive", "w": "w3", "tok": "t1"}, {"op": "receive", "w": "w2", "tok": "t2"}, {"op": "send", "w": "w2", "m": m, "amt": 4}]
+        hs.append({"mints": two, "wallets": ws, "ops": ops})
+    return hs
+
+
 def check(prop, which, fns=None):
     t0 = time.time()
     d = rundir("%s_%s" % (prop, tier()))
@@ -60,6 +108,14 @@ def check(prop, which, fns=None):
         l = lines[i - 1]
         key = "%s|%s" % (l["fn"], "tampered:" + l["tampered"] if "tampered" in l else ("want=" + l["want"] if "want" in l and l["want"] != l["out"] else "differs-from-reference"))
         groups.setdefault(key, []).append((l, v["expected"][k]))
+    wcov = {}
+    if which == "bdhke":
+        wl, wv, wcov = wallet_dleq(d, sd)
+        for k, i in enumerate(wv["bad"]):
+            l = wl[i - 1]
+            key = "%s|%s|%s" % (l["fn"], l["class"].split(":")[0], "rejected-by-third-party" if l["out"] != "true" else "differs-from-reference")
+            groups.setdefault(key, []).append((l, wv["expected"][k]))
+        lines = lines + wl
     unknown, known = split_known(prop, sorted(groups))
     for k in known:
         print("KNOWN-FINDING: property=%s %s (%s)" % (prop, k["key"], k.get("what", "")))
@@ -78,7 +134,7 @@ def check(prop, which, fns=None):
                           ("; the algebraic identities are model-checked for all values in toy groups Z_q, q in {5,7,11,13}" if toy is not None else ""),
            "evaluations": len(lines), "distinct_nontrivial": distinct, "samples": lines[:2] + lines[-2:],
            "rule": "one evaluation per logged call; distinct = distinct (function, inputs) lines", "by_function": v["byfn"],
-           "mismatches": len(v["bad"]), "tlc_evaluate_s": round(dt, 1), "toy_group_check_s": toy,
+           "mismatches": len(groups) and sum(len(g) for g in groups.values()), "wallet_path": wcov, "tlc_evaluate_s": round(dt, 1), "toy_group_check_s": toy,
            "known_findings_seen": [k["key"] for k in known]}
     write_evidence(prop, "other", cov, time.time() - t0, len(viol),
                    ["JDK MessageDigest/Mac/BigInteger and ~100 lines of curve arithmetic in ECPrim.java (self-tested against FIPS/RFC/SEC2 "
